@@ -1,4 +1,5 @@
 import Driver.Util
+import TemporalModel.Model.EpochConv
 import Driver.C09
 import Driver.C17
 import TemporalModel.Model.PlainDateBasic
@@ -34,6 +35,17 @@ def b01 (b : Bool) : String := if b then "1" else "0"
 
 def handleApi (toks : List String) : Option String :=
   match toks with
+  | ["en_i128", v] => do
+    let v ← int? v
+    some ((enFromI128 v).render toString)
+  | ["en_u128", v] => do
+    let v ← int? v
+    if v < 0 then none else some ((enFromU128 v).render toString)
+  | ["en_f64", v] =>
+    if v == "nan" || v == "inf" || v == "-inf" then some "err range"
+    else do
+      let v ← int? v
+      some ((enFromF64 v).render toString)
   | ["pd_ctor", y, m, d, k] => do
     let y ← int? y; let m ← int? m; let d ← int? d; let ov ← ctorKind? k
     some ((IsoDate.newWithOverflow y m d ov).render IsoDate.render)
